@@ -5,6 +5,8 @@ import Pxv.Lemmas.ScopeStage
 import Pxv.Lemmas.Injection
 import Pxv.Thm.C01
 import Pxv.Thm.C03
+import Pxv.Lemmas.StalemateInClass
+import Pxv.Thm.C02
 /-!
 C04 — injection is faithful: right constructor, right scope, no illicit copies.
 
@@ -489,3 +491,21 @@ example :
     (getT g regs tmpls 0 0).map (·.id) = some 7 := by decide
 
 end Pxv.Scope
+
+/-! ### the last pass of the borrow checker (`ordering_stalemates`, repo 437e3c1) inserts clones too -/
+namespace Pxv.CG
+open Graph
+
+/-- **C04 — no illicit copy by the last borrow-checking pass**: every edge `resolveStalemates` (the mirror of
+    `ordering_stalemates`, compared with the real pass on every call graph) adds to a well-formed call graph is either the
+    shared borrow through which a new node clones a node of the input graph whose constructor is clone-if-necessary, or
+    the hand-over of such a new node to its consumer; new nodes are never cloned themselves. -/
+theorem stalemate_pass_only_clones_cloneable {g : Graph} (hwf : g.wellFormed = true) :
+    OnlyClones g (resolveStalemates g).1 :=
+  resolveLoop_onlyClones g _ g [] [] hwf (onlyClones_refl g)
+
+-- on the ring whose second value only may be cloned: one new node (7), cloning node 1, moved into node 4
+example : (resolveStalemates exCross2).1.edges.filter (fun e => !(exCross2.edges.contains e)) =
+    [⟨1, 7, .shared⟩, ⟨7, 4, .move⟩] := by decide
+
+end Pxv.CG
